@@ -9,7 +9,7 @@ pub fn run(tier: Tier) -> i32 {
     let mut rep = Report::new("C05", tier);
     rep.rule("M1 (handshake world, attacker-driven): every sequence up to depth D of {connection request with each of 7 tokens (valid ids 1, 2, 2', one expiring at 3 s; foreign key; foreign protocol id; wrong host list) from 2 addresses; t1's request corrupted in version / protocol id / expiry / xnonce / first, middle, last ciphertext byte / MAC; response echoing any challenge issued so far sealed with the keys of any valid token the attacker owns from either address (all cross-uses); response with a garbage challenge; clock to 2, 3, 4 s}; oracle on every ClientConnected: it follows a response, from an address with an earlier request the reference model accepts (opens under server key and protocol id, unexpired then, host-listed, token not used from another address) whose token carries exactly the reported client id and user data, and the echoed challenge was issued for that client id");
     rep.assume("the attacker owns the listed tokens (knows their session keys) and can send from any address; challenge tokens are recognised by decrypting the server's replies with the token's server-to-client key");
-    let d = tier.pick(6, 9);
+    let d = tier.pick(8, 10);
     let w = HsWorld::new(c05_fix());
     let cfg = DfsCfg { depth: d, threads: explore::threads(), wall_cap_s: tier.pick(100.0, 1500.0), max_signatures: 8 };
     let mut r = explore::dfs(&w, &cfg);
@@ -17,14 +17,14 @@ pub fn run(tier: Tier) -> i32 {
     r.found.retain(|f| f.violation.signature.starts_with("C05/") || f.violation.signature.starts_with("panic/"));
     rep.add_dfs("attacker-handshakes", 0, d, &r);
     // from a non-initial state: a full one-slot server
-    let d2 = tier.pick(6, 8);
+    let d2 = tier.pick(7, 9);
     let w2 = HsWorld::new(super::hsworld::c05_full_fix());
     let cfg2 = DfsCfg { depth: d2, threads: explore::threads(), wall_cap_s: tier.pick(100.0, 1500.0), max_signatures: 8 };
     let mut r2 = explore::dfs(&w2, &cfg2);
     r2.found.retain(|f| f.violation.signature.starts_with("C05/") || f.violation.signature.starts_with("panic/"));
     rep.add_dfs("full-one-slot-server", 1, d2, &r2);
     // sessions that end and start again (time-out tick, server kick, client disconnect packet, payloads in between)
-    let d3 = tier.pick(7, 9);
+    let d3 = tier.pick(8, 10);
     let w3 = HsWorld::new(super::hsworld::c05_lifecycle_fix());
     let cfg3 = DfsCfg { depth: d3, threads: explore::threads(), wall_cap_s: tier.pick(100.0, 1500.0), max_signatures: 8 };
     let mut r3 = explore::dfs(&w3, &cfg3);
